@@ -8,8 +8,12 @@ TRUSTED_BASE = [
     "no extraction is used; no axiom is declared by the development",
 ]
 
-HOOK_COMMITS = ["b18f4f3"]
+HOOK_COMMITS = ["b18f4f3", "f3e0595"]
 NOT_YET = {}
+
+HCOBS_RULE = "exhaustive: every string over {FE, FD, 00} up to length 6 (quick) / 8 (thorough) at limits (3,5) and (1,1), unsplit and split in two with different methods and drains; random histories at tiny limits (3,5) (1,1) (2,3) (1,2) (4,4) (5,3) through the verif_hooks wrappers and at the production limits through the real Encoder/Decoder: messages of random / FE-FD-rich / FE-FD-only bytes, lengths 0-40, around 252, up to 1200, and (every 40th quick case, all thorough) around 64008, 252+64008 and 252+2*64008 with FE/FD planted at the limits; up to 6 pieces per side via borrow / copy / anchored / read, interleaved with consume-slices / advance-bytes / Read drains; a fifth of the cases feed malformed bytes to the decoder (truncated, out-of-radix, trailing, flipped, random); distinct = distinct case line; non-trivial = at least two encode calls or at least two chunks"
+HCOBS_NOTE = "Trusted: Coq kernel; the hand-written sink-level encoder model and decoder model (tied by correspondence, including per-call (cur, mid, max) through hook verif_hooks); OwningIovec as an abstract cell sequence with placeholders (its own correctness is C03/C04); translator for RADIX / STUFF_SEQUENCE / PROD_PARAMS."
+HCOBS_ASSUME = ["the four input methods are byte-equivalent at the sink (borrowed vs copied vs anchored memory is C05's concern)", "OwningIovec delivers appended bytes in order with backfilled placeholders (C03/C04)"]
 
 PROPS = {
     "C14": {
@@ -63,5 +67,37 @@ PROPS = {
         "level_text": "Theorems C17_read_n / C17_succeeds_iff / C17_count_zero: for every reader script, count and attempt limit the faithful model of read_n_impl makes at most max calls, each asking for exactly count minus what was delivered so far, stops at the first end of file or non-interrupt error, returns the bytes delivered in order, succeeds iff something was delivered or the run ended on EOF (otherwise the last error), and for count 0 does not touch the reader; proved by induction over unbounded scripts. Tied to the code by exhaustive short scripts and random ones through ByteArena::read_n and the four codec entry points, in three arena states, debug and release; the harness additionally checks the frame clauses (earlier allocations intact, remaining() accounting, codec output equal to encode/decode of exactly the delivered bytes).",
         "level_note": "Trusted: Coq kernel; the hand-written model of the retry loop; a reader is any script of {deliver k <= asked, Interrupted, EOF, error}; the arena frame and codec-state clauses are checked by the harness against a reference run rather than proved in this model (the arena itself is modelled under C03/C05).",
         "assumptions": ["Read::read never reports more bytes than the buffer it was given"],
+    },
+    "C01": {
+        "families": ["hcobs"],
+        "n": {"quick": {"hcobs": 2500}, "thorough": {"hcobs": 40000}},
+        "rule": HCOBS_RULE,
+        "level_text": "Theorem C01_roundtrip: for all limits 0 < mi <= 252, 0 < ms < 253^2 (instantiated at the production limits translated from the source), every Encoder history of the sink-level faithful model (any segmentation into calls, any drain schedule; the input methods are byte-equivalent) trips no assertion and its complete output, fed to the faithful Decoder model in any segmentation, is accepted and yields exactly the concatenated input. Proved by a refinement chain: sink-level encoder -> chunk-level encoder -> reference chunking (invariant over unbounded histories), decoder loop -> byte-at-a-time semantics -> unstuff o unframe. Tied to the code by exhaustive short messages at tiny limits (hook), random histories at tiny and production limits through all four input methods and three drain operations on both sides.",
+        "level_note": HCOBS_NOTE,
+        "assumptions": HCOBS_ASSUME,
+    },
+    "C02": {
+        "families": ["hcobs"],
+        "n": {"quick": {"hcobs": 2500}, "thorough": {"hcobs": 40000}},
+        "rule": HCOBS_RULE,
+        "level_text": "Theorems C02_no_stuff / C02_split_independent / C02_length(_prod): the complete output of every Encoder history of the faithful model contains no FE FD, depends only on the concatenated input (not on segmentation or drains), and is at most len + 1 + 2*ceil(len/ms) bytes long (ms = 64008 as translated from the source). Tied to the code as C01; the check additionally evaluates no-FE-FD and the length bound on the implementation's own output.",
+        "level_note": HCOBS_NOTE,
+        "assumptions": HCOBS_ASSUME,
+    },
+    "C07": {
+        "families": ["hcobs"],
+        "n": {"quick": {"hcobs": 2500}, "thorough": {"hcobs": 40000}},
+        "rule": HCOBS_RULE,
+        "level_text": "Theorems C07_encoder_canonical / C07_reference_in_format / C07_decoder_exact / C07_format_iff / C07_constants: the Encoder model's output is byte for byte frame(stuff(input)) (greedy chunking at the first FE FD or the limit, 1-byte then 2-byte little-endian radix-253 headers, ending on a short chunk); the Decoder model accepts a byte string, in any segmentation, iff it is the framing of a well-formed chunk sequence ending on a short chunk and returns its unstuffing (proved against a direct recursive parser independent of the state machine); RADIX, the stuff sequence and the limits 252/64008 are pinned to the translated source values. Tied to the code by canonical-output comparison and by malformed decoder inputs (truncations, out-of-radix bytes, over-long lengths, trailing bytes, random) at tiny and production limits.",
+        "level_note": HCOBS_NOTE,
+        "assumptions": HCOBS_ASSUME,
+    },
+    "C09": {
+        "families": ["hcobs"],
+        "n": {"quick": {"hcobs": 2500}, "thorough": {"hcobs": 40000}},
+        "rule": HCOBS_RULE,
+        "level_text": "Theorems C09_encoder_prefix_and_lag / C09_encoder_complete / C09_decoder_prefix / C09_encoder_lag_prod: at every point of every Encoder history of the sink-level model (cells, some of them placeholders) the drained bytes followed by the consumable ones are a prefix of the final output for every continuation, drained ++ finish is the complete output, and the cells not yet consumable are at most 2 + max(mi,ms) (the open chunk and its header); the Decoder model registers no placeholder (lag zero) and its output only grows. PARTIAL at slice level: the implementation exposes whole slices, so its lag additionally includes the arena slice holding the header; that part is checked, not proved: the harness measures total_size - stable bytes after every call against 2^20 + ms + 2 and checks every drained++stable snapshot against the final output.",
+        "level_note": HCOBS_NOTE + " The slice-level lag bound (one arena chunk) is measured by the harness, not proved.",
+        "assumptions": HCOBS_ASSUME,
     },
 }
